@@ -106,6 +106,7 @@ func runC12(c *Ctx) {
 	if len(sentinels) == 0 {
 		c.Trivial("C12.1", "package", "no-sentinel", token.NoPos, "no timeout decoder returns a package-level sentinel error: nothing to filter")
 	}
+	runC12SentinelConditions(c, sentinels)
 	cph := p.Iface("clientProtocolHandler")
 	if cph == nil {
 		fatalf("anchor=clientProtocolHandler not found")
@@ -540,5 +541,84 @@ func runC12(c *Ctx) {
 				"unit is selected exactly for durations below 10^8 units (at most 8 digits)",
 				fmt.Sprintf("unit %q is selected for durations below %d ns, not %d ns (10^8 units): value can need more than 8 digits or lose precision needlessly", rune(unit), k, size*100000000))
 		}
+	}
+}
+
+// runC12SentinelConditions: C12.5 (defect D22).  'No deadline' is a stronger statement than any
+// deadline: a decoder may answer it only (a) for an absent header, or (b) for a count of its
+// largest unit that does not fit a time.Duration - exactly MaxInt64/unit - and only after the
+// syntactic checks (at most 8 digits) have passed.  A smaller threshold silently drops valid
+// deadlines (the backend runs unbounded); testing it before the digit check accepts malformed
+// headers.
+func runC12SentinelConditions(c *Ctx, sentinels []*ssa.Global) {
+	p := c.P
+	c.Rule("C12.5", "a timeout decoder answers 'no deadline' only for an absent header or a count that cannot be represented", 1)
+	n := 0
+	for _, g := range sentinels {
+		for _, fn := range p.Funcs {
+			res := fn.Signature.Results()
+			if res.Len() != 2 || !isNamed(res.At(0).Type(), "time", "Duration") || len(fn.Params) != 1 || !isStringType(fn.Params[0].Type()) {
+				continue
+			}
+			paths, ok := EnumPaths(fn.Blocks[0], nil, IsReturn, 0)
+			if !ok {
+				c.Unknown("C12.5", FuncName(fn), "paths", fn.Pos(), "too many paths")
+				continue
+			}
+			for _, cp := range paths {
+				ret := cp.End.(*ssa.Return)
+				if len(ret.Results) != 2 || !originIsGlobal(cp.Deref(ret.Results[1]), g) && !originIsGlobal(ret.Results[1], g) {
+					continue
+				}
+				n++
+				empty := false
+				var unitK, capK int64 = 0, -1
+				digitsChecked := false
+				for cond, truth := range cp.Truth {
+					b, isB := cond.(*ssa.BinOp)
+					if !isB {
+						continue
+					}
+					if s2, isS := ConstString(b.Y); isS && s2 == "" && b.X == ssa.Value(fn.Params[0]) && (b.Op == token.EQL && truth || b.Op == token.NEQ && !truth) {
+						empty = true
+					}
+					k, isK := ConstInt(b.Y)
+					if !isK {
+						continue
+					}
+					if isNamed(b.X.Type(), "time", "Duration") && (b.Op == token.EQL && truth || b.Op == token.NEQ && !truth) {
+						unitK = k
+					}
+					if !isNamed(b.X.Type(), "time", "Duration") && isIntegerLike(b.X.Type()) {
+						// count > K (true): the cap;  count > 99999999 (false): digit check passed
+						if b.Op == token.GTR && truth {
+							if capK == -1 || k > capK {
+								capK = k
+							}
+						}
+						if b.Op == token.GEQ && truth {
+							if capK == -1 || k-1 > capK {
+								capK = k - 1
+							}
+						}
+						if (b.Op == token.GTR && !truth && k == 99999999) || (b.Op == token.GEQ && !truth && k == 100000000) || (b.Op == token.LEQ && truth && k == 99999999) || (b.Op == token.LSS && truth && k == 100000000) {
+							digitsChecked = true
+						}
+					}
+				}
+				if empty {
+					c.OK("C12.5", FuncName(fn), "sentinel-for-absent-header", ret.Pos(), "'no deadline' for an empty header value")
+					continue
+				}
+				const maxInt64 = int64(^uint64(0) >> 1)
+				okCap := unitK > 0 && capK == maxInt64/unitK
+				c.Check(okCap && digitsChecked, "C12.5", FuncName(fn), "sentinel-only-when-unrepresentable", ret.Pos(),
+					"'no deadline' is answered only when the count exceeds MaxInt64/unit (it would overflow a Duration) and after the 8-digit check",
+					"'no deadline' is answered for counts above "+itoa(int(capK))+" of a unit of "+itoa(int(unitK))+" ns (representable limit: MaxInt64/unit) or before the digit-count check (checked: "+boolStr(digitsChecked)+"): valid deadlines are dropped - the backend runs without one - or malformed headers are accepted")
+			}
+		}
+	}
+	if n == 0 {
+		c.Trivial("C12.5", "package", "no-sentinel-return", token.NoPos, "no timeout decoder returns the sentinel")
 	}
 }
